@@ -78,56 +78,74 @@ fn any_short_str(buf: &[u8; 3]) -> &str {
     s.unwrap()
 }
 
-// killed by: is_safe `ValueInner::String(s) => true`; SmartString::mark_safe keeping the old
-// kind; `From<&str>` building StringKind::Safe; `Value::safe_string` building Normal;
-// SmartString::new storing `len: 0`
+fn any_kind() -> StringKind {
+    if kani::any() { StringKind::Normal } else { StringKind::Safe }
+}
+
+// killed by: SmartString::mark_safe keeping the old kind; SmartString::new storing `len: 0`;
+// SmartString::kind `Self::Small { .. } => StringKind::Safe`
 #[kani::proof]
 #[kani::unwind(6)]
-fn string_mark_short() {
+fn smartstring_roundtrip_short() {
     let buf: [u8; 3] = kani::any();
     let s = any_short_str(&buf);
-
-    // SmartString round trip, both kinds
-    let kind = if kani::any() { StringKind::Normal } else { StringKind::Safe };
+    let kind = any_kind();
     let ss = SmartString::new(s, kind);
     assert!(matches!(ss, SmartString::Small { .. }));
-    assert!(ss.as_str() == s);
+    assert!(ss.as_str().as_bytes() == s.as_bytes());
     assert!(ss.len() == s.len());
     assert!(ss.kind() == kind);
     let ms = ss.mark_safe();
     assert!(ms.kind() == StringKind::Safe);
-    assert!(ms.as_str() == s);
-
-    // every public way to build a string from plain data gives a Normal (escaped) string
-    let v = Value::normal_string(s);
-    assert!(!v.is_safe() && v.as_str() == Some(s));
-    let v1 = Value::from(s);
-    assert!(!v1.is_safe() && v1.as_str() == Some(s));
-    let owned = String::from(s);
-    let v2 = Value::from(owned);
-    assert!(!v2.is_safe() && v2.as_str() == Some(s));
-    let v3 = Value::from(std::borrow::Cow::Borrowed(s));
-    assert!(!v3.is_safe() && v3.as_str() == Some(s));
-    let v4 = Value::from(Key::Str(s_static(s)));
-    assert!(!v4.is_safe() && v4.kind() == ValueKind::String);
-
-    // only safe_string / mark_safe give a Safe one; content unchanged; mark_safe is idempotent
-    let vs = Value::safe_string(s);
-    assert!(vs.is_safe() && vs.as_str() == Some(s));
-    let m = v.mark_safe();
-    assert!(m.kind() == ValueKind::String && m.is_safe() && m.as_str() == Some(s));
-    let mm = m.mark_safe();
-    assert!(mm.is_safe() && mm.as_str() == Some(s));
-    let ms2 = vs.mark_safe();
-    assert!(ms2.is_safe() && ms2.as_str() == Some(s));
-    // the mark does not take part in equality of content (documented TODO in PartialEq), but it
-    // is never lost by clone
-    let c = ms2.clone();
-    assert!(c.is_safe());
+    assert!(ms.as_str().as_bytes() == s.as_bytes());
+    assert!(ms.len() == s.len());
 }
 
-/// Key::Str wants a 'static str: the harness leaks nothing real, the bytes live in the harness
-/// frame for the whole run.
+// every public way to build a string Value from plain data gives a Normal (escaped) string
+// killed by: `From<&str>` building StringKind::Safe (the same edit in From<String>, From<Cow>,
+// From<Key>, Value::normal_string is caught by the same assert)
+#[kani::proof]
+#[kani::unwind(6)]
+fn string_constructors_are_normal_short() {
+    let buf: [u8; 3] = kani::any();
+    let s = any_short_str(&buf);
+    let which: u8 = kani::any();
+    let v = match which {
+        0 => Value::normal_string(s),
+        1 => Value::from(s),
+        2 => Value::from(String::from(s)),
+        3 => Value::from(std::borrow::Cow::Borrowed(s)),
+        _ => Value::from(Key::Str(s_static(s))),
+    };
+    assert!(v.kind() == ValueKind::String);
+    assert!(!v.is_safe());
+    assert!(v.as_str().unwrap().as_bytes() == s.as_bytes());
+    std::mem::forget(v);
+}
+
+// only safe_string / mark_safe give a Safe string; content unchanged; idempotent; clone keeps it
+// killed by: is_safe `ValueInner::String(s) => s.kind() == StringKind::Normal`; `Value::safe_string`
+// building Normal; Value::mark_safe `ValueInner::String(s) => Value { inner: ValueInner::String(s) }`
+#[kani::proof]
+#[kani::unwind(6)]
+fn mark_safe_strings_short() {
+    let buf: [u8; 3] = kani::any();
+    let s = any_short_str(&buf);
+    let vs = Value::safe_string(s);
+    assert!(vs.is_safe() && vs.as_str().unwrap().as_bytes() == s.as_bytes());
+    let v = Value::normal_string(s);
+    assert!(!v.is_safe());
+    let m = v.mark_safe();
+    assert!(m.kind() == ValueKind::String && m.is_safe());
+    assert!(m.as_str().unwrap().as_bytes() == s.as_bytes());
+    let mm = m.mark_safe();
+    assert!(mm.is_safe() && mm.as_str().unwrap().as_bytes() == s.as_bytes());
+    let c = mm.clone();
+    assert!(c.is_safe());
+    std::mem::forget((vs, mm, c));
+}
+
+/// Key::Str wants a 'static str: the bytes live in the harness frame for the whole run.
 fn s_static(s: &str) -> &'static str {
     unsafe { std::mem::transmute::<&str, &'static str>(s) }
 }
@@ -143,45 +161,50 @@ fn char_is_normal_string() {
     let mut buf = [0u8; 4];
     let want: &str = c.encode_utf8(&mut buf);
     assert!(v.as_str().unwrap().len() == c.len_utf8());
-    assert!(v.as_str() == Some(want));
+    assert!(v.as_str().unwrap().as_bytes() == want.as_bytes());
+    std::mem::forget(v);
 }
 
 // Both representations around the inline limit (21 bytes) with concrete strings: 21 bytes is
-// Small, 22 and 40 bytes are Large (Arc<str>).
+// Small, 22 bytes is Large (Arc<str>).
 // killed by: SmartString::mark_safe `Self::Large(s, k) => Self::Large(s, k)`;
 // SmartString::kind `Self::Large(..) => StringKind::Safe`
 #[kani::proof]
-#[kani::unwind(44)]
-fn string_mark_long() {
+#[kani::unwind(24)]
+fn smartstring_roundtrip_long() {
     const S21: &str = "<b>123456789012345678";
-    const S22: &str = "<b>1234567890123456789";
-    const S40: &str = "<script>alert(1)</script>&\"'/ 0123456789";
-    assert!(S21.len() == 21 && S22.len() == 22 && S40.len() == 40);
+    const S22: &str = "<script>alert(1)</scri";
+    assert!(S21.len() == 21 && S22.len() == 22);
     let small = SmartString::new(S21, StringKind::Normal);
     assert!(matches!(small, SmartString::Small { .. }));
-    assert!(small.as_str() == S21 && small.kind() == StringKind::Normal && small.len() == 21);
+    assert!(small.as_str().as_bytes() == S21.as_bytes() && small.kind() == StringKind::Normal && small.len() == 21);
     let small = small.mark_safe();
-    assert!(small.as_str() == S21 && small.kind() == StringKind::Safe);
+    assert!(small.as_str().as_bytes() == S21.as_bytes() && small.kind() == StringKind::Safe);
 
-    let s = if kani::any() { S22 } else { S40 };
-    let kind = if kani::any() { StringKind::Normal } else { StringKind::Safe };
-    let large = SmartString::new(s, kind);
+    let kind = any_kind();
+    let large = SmartString::new(S22, kind);
     assert!(matches!(large, SmartString::Large(..)));
-    assert!(large.as_str() == s && large.kind() == kind && large.len() == s.len());
+    assert!(large.as_str().as_bytes() == S22.as_bytes() && large.kind() == kind && large.len() == 22);
     let large = large.mark_safe();
-    assert!(large.as_str() == s && large.kind() == StringKind::Safe);
+    assert!(large.as_str().as_bytes() == S22.as_bytes() && large.kind() == StringKind::Safe);
     std::mem::forget(large);
+}
 
-    let v = Value::from(s);
-    assert!(!v.is_safe() && v.as_str() == Some(s));
+// killed by: is_safe `ValueInner::String(s) => true`; Value::safe_string building Normal
+#[kani::proof]
+#[kani::unwind(24)]
+fn value_mark_long() {
+    const S22: &str = "<script>alert(1)</scri";
+    let v = Value::from(S22);
+    assert!(!v.is_safe() && v.as_str().unwrap().as_bytes() == S22.as_bytes());
     let v = v.mark_safe();
-    assert!(v.is_safe() && v.as_str() == Some(s));
+    assert!(v.is_safe() && v.as_str().unwrap().as_bytes() == S22.as_bytes());
     std::mem::forget(v);
-    let v = Value::safe_string(s);
-    assert!(v.is_safe() && v.as_str() == Some(s));
+    let v = Value::safe_string(S22);
+    assert!(v.is_safe() && v.as_str().unwrap().as_bytes() == S22.as_bytes());
     std::mem::forget(v);
-    let v = Value::normal_string(s);
-    assert!(!v.is_safe() && v.as_str() == Some(s));
+    let v = Value::normal_string(S22);
+    assert!(!v.is_safe() && v.as_str().unwrap().as_bytes() == S22.as_bytes());
     std::mem::forget(v);
 }
 
